@@ -37,21 +37,26 @@ Init ==
 \* the path may also be scaled in place by 2 and reified ("scale2"): the whole geometry is then K times the word's
 \* geometry, K = 2^(number of scale2 events); later edits are made at that scale
 RECURSIVE Pow2Of(_, _)
-Pow2Of(h, i) == IF i > Len(h) THEN 1 ELSE (IF h[i][1] = "scale2" THEN 2 ELSE 1) * Pow2Of(h, i + 1)
+Pow2Of(h, i) == IF i > Len(h) THEN 1 ELSE (IF h[i][1] \in {"scale2", "subscale2"} THEN 2 ELSE 1) * Pow2Of(h, i + 1)
 ScaleSet(S, k) == {<<RMul(q[1], R(k)), RMul(q[2], R(k))>> : q \in S}
 Scaled(w, k) == LET a == WalkAll(Poly(<<2, 1>>, w, 1)) IN [j \in 1..9 |-> ScaleSet(a[j], k)]
 Edit(name, w) == /\ hist' = Append(hist, <<name, w>>) /\ arg' = w /\ exp' = Scaled(w, Pow2Of(hist', 1))
 Next == /\ kind = "hist" /\ Len(hist) < MaxOps /\ UNCHANGED kind
-        /\ (IF hist = <<>> THEN TRUE ELSE hist[Len(hist)][1] # "reverse")
+        /\ (IF hist = <<>> THEN TRUE ELSE hist[Len(hist)][1] \notin {"reverse", "subreverse"})
         /\ \/ (hist' = Append(hist, <<"query", arg>>) /\ UNCHANGED <<arg, exp>>)
            \/ (hist' = Append(hist, <<"length", arg>>) /\ UNCHANGED <<arg, exp>>)
+           \* a measurement with a coarse error setting: a query like the others (what is asked later is answered as asked)
+           \/ (hist' = Append(hist, <<"coarse", arg>>) /\ UNCHANGED <<arg, exp>>)
            \/ \E d \in {2, 3, 4} : Len(arg) < 4 /\ Edit("append", Append(arg, d))
            \/ (Len(arg) >= 2 /\ Edit("delete_last", SubSeq(arg, 1, Len(arg) - 1)))
            \/ \E d \in {2, 5} : Edit("replace_last", Append(SubSeq(arg, 1, Len(arg) - 1), d))
            \/ \E d \in {3, 6} : Len(arg) < 4 /\ Edit("extend_str", Append(arg, d))
            \/ (Pow2Of(hist, 1) < 4 /\ Edit("scale2", arg))
+           \* the same map applied through the view of the (only) sub-path, which rewrites the path's segments in place
+           \/ (Pow2Of(hist, 1) < 4 /\ (\A i \in 1..Len(arg) : arg[i] # 0) /\ Edit("subscale2", arg))
            \* reversing the (single sub-path, move-free) path: the walk runs the other way; kept last in a history
-           \/ (\A i \in 1..Len(arg) : arg[i] # 0) /\ hist' = Append(hist, <<"reverse", arg>>) /\ arg' = arg
+           \/ \E nm \in {"reverse", "subreverse"} :          \* (subreverse: through the view of the only sub-path)
+                (\A i \in 1..Len(arg) : arg[i] # 0) /\ hist' = Append(hist, <<nm, arg>>) /\ arg' = arg
                 /\ exp' = [j \in 1..9 |-> exp[10 - j]]
 \* simulation mode: long query/edit histories
 InitHist == kind = "hist" /\ arg = <<1>> /\ hist = <<>> /\ exp = WalkAll(Poly(<<2, 1>>, <<1>>, 1))
